@@ -13,19 +13,28 @@ class C14(Prop):
         "Stgutg.Props.C14.fuel_gt", "Stgutg.Props.C14.decoder_total", "Stgutg.Props.C14.unmarshal_total",
         "Stgutg.Props.C14.decoder_consumes",
         "Stgutg.Proofs.AperTotal.DOK_decField", "Stgutg.Proofs.AperTotal.unmarshal_good",
+        "Stgutg.Props.C14.cost_model_projection", "Stgutg.Props.C14.alloc_table", "Stgutg.Props.C14.steps_table",
+        "Stgutg.Props.C14.cost_bound", "Stgutg.Props.C14.C14_alloc_bound", "Stgutg.Props.C14.C14_step_bound",
+        "Stgutg.Props.C14.C14_alloc_bound_any", "Stgutg.Props.C14.C14_step_bound_any",
+        "Stgutg.Props.C14.overclaim_example", "Stgutg.Props.C14.valid_example",
     ]
     domains = [Domain("aper-dec", 400, 20000)]
     rule = ("aper-dec: valid encodings of random NGAP PDUs / transfer containers (type-directed generator over the real ngapType structs), "
             "every ~5% prefix, 12 single bit/byte corruptions incl. adversarial length/count octets (0x00 0x7f 0x80 0xbf 0xc1 0xc4 0xff), "
             "appended garbage, and random strings, through ngap.Decoder / aper.UnmarshalWithParams; "
             "non-trivial = input of at least 3 octets; distinct by op line")
-    level_text = ("Theorem: for every byte string the decoder model over the regenerated NGAP schema returns a value or an error, "
-                  "never panic and never out-of-fuel, with fuel fixed by the schema; model tied to aper.go by differential decoding "
-                  "of mutated encodings (class and value must agree), wall time and allocation of the real decoder measured")
-    level_note = ("Go heap use / wall time are measured on the implementation, not modelled; the model bounds element counts and steps; "
-                  "reflect, logrus trusted")
+    level_text = ("Theorems: for every byte string the decoder model over the regenerated NGAP schema returns a value or an error, "
+                  "never panic and never out-of-fuel, with fuel fixed by the schema; and, in the instrumented model (counters erase to "
+                  "the decoder model: projection lemma), it passes at most 9*(8*len)+262143 elements/octets to MakeSlice and its "
+                  "string/open-type buffers and enters parseField at most 206+296*(8*len) times, whatever counts the input claims "
+                  "(cost table of the schema decided by the kernel on every run); model tied to aper.go by differential decoding "
+                  "of mutated encodings (class and value must agree), bytes and wall time of the real decoder measured")
+    level_note = ("proved: element/octet counts and parseField entries of the model (where the counters are charged is a modelling claim: "
+                  "MakeSlice(count) before the elements, every takeOctets of a string/open-type parser); measured, not modelled: Go heap "
+                  "bytes (element size x count) and wall time; reflect, logrus trusted")
     technique = "Lean 4 totality proof over the regenerated schema + differential decoding of mutated encodings"
-    partial_note = "real heap use and wall time are runtime behaviour: measured per call (evidence.measurements), not proved"
+    partial_note = ("allocation is proved as a count of elements/octets and time as a count of parseField entries; real heap bytes and "
+                    "wall time are runtime behaviour: measured per call (evidence.measurements), not proved")
     trusted_base = ["schema translator (go/ast over ngapType/*.go) and its re-implementation of aper.parseFieldParameters"]
     MAX_ALLOC = 64 << 20
     MAX_NS = 2_000_000_000
